@@ -278,7 +278,7 @@ MUST_REACH = [
     'debian.deb822:RestrictedWrapper.dump',
 ]
 
-DOCS = {'quick': 9600, 'thorough': 560000}
+DOCS = {'quick': 9200, 'thorough': 560000}
 CODEC = {'quick': 200000, 'thorough': 11200000}
 LICENSES = {'quick': 30000, 'thorough': 1400000}
 FACTORY = {'quick': 1600, 'thorough': 80000}
@@ -286,6 +286,12 @@ MULTI = {'quick': 320, 'thorough': 16000}
 HEADERDOCS = {'quick': 1600, 'thorough': 84000}
 FORMAT_IN_ORDINARY_DOCS = 0.08       # share of the ordinary / factory documents that also get a non-default Format
 LISTS = {'quick': 20000, 'thorough': 1000000}
+# round-9 extension (non-normalised Unicode, odd continuation markers): totals per tier
+UNIDOCS = {'quick': 720, 'thorough': 42000}
+RAWDOCS = {'quick': 800, 'thorough': 56000}
+ULISTS = {'quick': 1600, 'thorough': 84000}
+UCODEC = {'quick': 8000, 'thorough': 420000}
+ULICENSES = {'quick': 2000, 'thorough': 112000}
 LIST_FIELD_CYCLE = ('files', 'files', 'files', 'upstream_contact', 'files_excluded', 'files_included')
 CODEC_BATCH = 250
 LICENSE_BATCH = 100
@@ -707,6 +713,20 @@ FILES_FIELDS = {'files': (patterns_ok, 'patterns', False), 'copyright': (raw_ok,
                 'license': (license_ok, 'license', False), 'comment': (raw_ok, 'raw', True)}
 LICENSE_FIELDS = {'license': (license_ok, 'license', False), 'comment': (raw_ok, 'raw', True)}
 INPUTS = ('keepends', 'noends', 'stringio', 'bytes')
+# round-9 extension: the other ways a document reaches the parser - as ONE str / ONE utf-8 bytes object, as byte lines
+# without line ends, as a binary stream, as a real file opened in binary / in text mode (encoding given explicitly).
+# The older workloads keep drawing from (and rotating within) INPUTS, so their seeded streams are unchanged.
+MORE_INPUTS = ('str-doc', 'bytes-doc', 'bytes-noends', 'bytesio', 'binary-file', 'text-file')
+ALL_INPUTS = INPUTS + MORE_INPUTS
+BYTE_INPUTS = ('bytes', 'bytes-doc', 'bytes-noends', 'bytesio', 'binary-file')
+ALLFORMS_OFFSETS = (1, 3, 5, 8)
+
+
+def _rot(mode, k):
+    """The input form k steps after `mode`: within INPUTS for the four original forms (what the module always
+    did), within ALL_INPUTS for the newer ones."""
+    table = INPUTS if mode in INPUTS else ALL_INPUTS
+    return table[(table.index(mode) + k) % len(table)]
 
 
 def _flag_ok(v):
@@ -755,7 +775,7 @@ def real_ops(case):
 
 def spec_in_domain(case):
     try:
-        if case.get('input') not in INPUTS:
+        if case.get('input') not in ALL_INPUTS:
             return False
         if not _assignments_ok(case.get('header', [])):
             return False
@@ -764,7 +784,7 @@ def spec_in_domain(case):
                 return False
         if case.get('hdr') not in (None, 'own'):
             return False
-        for flag in ('early', 'nonstrict', 'late_after_dump', 'second_round'):
+        for flag in ('early', 'nonstrict', 'late_after_dump', 'second_round', 'allforms'):
             if not _flag_ok(case.get(flag)):
                 return False
         if not _hdata_ok(case.get('hdata')) or not _fmt_parsed_ok(case.get('fmt_parsed', [])):
@@ -1690,6 +1710,523 @@ def enum_codec_lists():
 
 
 # ---------------------------------------------------------------------------
+# round-9 extension: NON-NORMALISED UNICODE in every text value, ODD CONTINUATION MARKERS in raw multi-line values
+#
+# Every atom below is valid Unicode that some normalisation or folding would change (that is the point: the library
+# must hand back the very code points it was given); none contains a character str.isspace() accepts or one of the
+# excluded line-boundary characters (checked at import: an atom that fails is dropped, never "repaired").
+
+UNI_DECOMPOSED = ['e\u0301', 'A\u030a', 'o\u0308', 'n\u0303', 'c\u0327', 'e\u0302\u0301', 'a\u0323\u0302',
+                  'a\u0302\u0323', 'q\u0307\u0323', 'u\u0308\u0304', 'Cafe\u0301', 'A\u030angstro\u0308m',
+                  'Zoe\u0308', 'Nu\u0301n\u0303ez', 'Dvor\u030ca\u0301k', '\u0391\u0301', '\u0438\u0306',
+                  '\u304b\u3099', '\u30cf\u309a', 'x\u0338', '\u2260\u0338', '\u0627\u0653', 'a\u0300\u0301']
+UNI_SINGLETONS = ['\u2126', '\u212b', '\u212a', '10\u2126', '5\u212b', '300\u212a', '\u0340', '\u0341',
+                  '\u0343', '\u0374', '\u037e', '\u0387', '\u1f71', '\u1fbe', '\u2329x\u232a', '\u0958',
+                  '\u0f43', '\u0344', '\u1fef']
+UNI_CJK_COMPAT = ['\uf900', '\uf901', '\uf902', '\ufa10', '\ufa0e\uf9ff', '\ufa30', '\U0002f800',
+                  '\U0002f81a', '\u8c48\uf900', '\u2f00', '\u2e9f', '\u3038']
+UNI_HANGUL = ['\u1112\u1161\u11ab', '\u1100\u1161', '\u1112\u1161\u11ab\u1100\u1173\u11af', '\ud558\u11ab',
+              '\ud55c\uae00', '\u1100\u1100\u1161', '\u3131\u314f', '\uffa1\uffc2', '\u1161', '\u11ab',
+              '\ua960\u1161', '\u1112\ud7b0']
+UNI_COMPAT = ['\ufb01le', 'o\ufb03ce', '\ufb00', '\ufb06', '\u01c6', '\u0133', '\uff21\uff22\uff43',
+              '\uff27\uff30\uff2c\uff0d\uff12', '\uff0f\uff0a', 'x\xb2', 'E=mc\xb2', '10\u2075', 'H\u2082O',
+              '\u2460', '\u2122', '\xbd', '\u2160\u2161', '\u210c', '\xb5m', '\u017ft', '\xaa',
+              'no\u2011break', 'wait\u2026', '\u2103', '\u33a1', '\u3392', '\ufdfa', '\uff76\uff9e', '\u309b',
+              '\U0001d400\U0001d41b', '\u2474', '\u3300', '\xa8', '\u02dc', '\u2025', '\ufe50', '\uff1a',
+              '\u2024', '\uff61']
+UNI_CASE = ['\u0130stanbul', 'd\u0131\u015f', 'Stra\xdfe', '\u1e9e', '\u01c5', '\u03a3\u03c2', 'x\u0345',
+            '\u0149', '\u01f0', '\ufb13', '\u1f88', '\u0390']
+UNI_INVISIBLE = ['a\u200db', 'a\u200cb', 'x\ufe0f', 'soft\xadhyphen', 'a\u2060b', 'a\u034fb', 'a\u200eb',
+                 '\u202eabc\u202c', 'a\ufeffb', '\ufeff', 'a\u200bb', '\u180e', '\U000e0001', '\u2061']
+# characters whose UTF-8 form holds the bytes 0x85 / 0xA0 / 0x0B.. look-alikes (what a byte-level reader may take for a
+# line boundary or a blank), also at the end of a line; astral characters (4-byte sequences, surrogate pairs in UTF-16)
+UNI_BYTES = ['\u0105', '\xe0', '\u2020', '\u0145', '\u4e85', '\xc5', '\U00010085', 'caf\xe0', 'cz\u0105',
+             '\u2026', '\u0160', '\u010c', '\U0001f600', '\U0001f1e9\U0001f1ea',
+             '\U0001f468\u200d\U0001f469\u200d\U0001f467', '\U00100000', '\ufffd', '\ue000']
+# inner Unicode blanks (NFKC turns them into U+0020): only ever INSIDE a word, never in a pattern
+UNI_SPACED = ['a\u2002b', 'a\u3000b', 'a\u2009b', 'no\xa0break', 'a\u1680b', 'a\u205fb', 'a\u202fb',
+              '1\u2007000']
+
+
+def _atom_ok(a, spaced=False):
+    if not a or not _clean(a):
+        return False
+    if spaced:
+        return not a[0].isspace() and not a[-1].isspace() and len(a.split('\n')) == 1 and len(a.splitlines()) == 1
+    return not any(ch.isspace() for ch in a) and len(a.splitlines()) == 1
+
+
+UNI_GROUPS = [('decomposed', UNI_DECOMPOSED), ('singleton', UNI_SINGLETONS), ('cjk-compat', UNI_CJK_COMPAT),
+              ('hangul', UNI_HANGUL), ('compat', UNI_COMPAT), ('case', UNI_CASE), ('invisible', UNI_INVISIBLE),
+              ('bytes', UNI_BYTES)]
+UNI_ATOMS = []
+for _g, _atoms in UNI_GROUPS:
+    for _a in _atoms:
+        if _atom_ok(_a) and _a not in UNI_ATOMS:
+            UNI_ATOMS.append(_a)
+UNI_SPACED = [a for a in UNI_SPACED if _atom_ok(a, spaced=True)]
+UNI_STEMS = ['Caf', 'Jos', 'M', 'x', 'Dr.', 'src/', 'v1.', '2001-', '(c)', 'na', '\xe9', 'GPL-']
+PLAIN_WORDS = ['the', 'Software', 'is', 'provided', 'WITHOUT', 'WARRANTY', 'of', 'any', 'kind,', 'Copyright', '(C)',
+               '2001-2014', 'Permission', 'granted,', 'to', 'a', 'copy', 'and', 'GPL-2+', '<a@b.example>', 'x.', '--']
+
+
+def uni_classes(s):
+    """Which kinds of non-normalised / fold-sensitive Unicode a string shows (empty set for ASCII)."""
+    cls = set()
+    if s.isascii():
+        return cls
+    import unicodedata
+    if unicodedata.normalize('NFC', s) != s:
+        cls.add('not-nfc')
+    if unicodedata.normalize('NFD', s) != s:
+        cls.add('not-nfd')
+    if unicodedata.normalize('NFKC', s) != unicodedata.normalize('NFC', s):
+        cls.add('nfkc-differs')
+    if s.casefold() != s.lower():
+        cls.add('casefold-differs-from-lower')
+    for ch in s:
+        o = ord(ch)
+        if 0x1100 <= o <= 0x11ff or 0xa960 <= o <= 0xa97f or 0xd7b0 <= o <= 0xd7ff:
+            cls.add('hangul-jamo')
+        elif 0xf900 <= o <= 0xfaff or 0x2f800 <= o <= 0x2fa1f:
+            cls.add('cjk-compatibility')
+        elif o in (0x2126, 0x212a, 0x212b, 0x0340, 0x0341, 0x0343, 0x0374, 0x037e, 0x0387, 0x1f71, 0x1fbe, 0x2329, 0x232a):
+            cls.add('singleton')
+        elif 0x0300 <= o <= 0x036f or 0x3099 <= o <= 0x309a:
+            cls.add('combining-mark')
+        elif 0xfb00 <= o <= 0xfb06 or 0xff01 <= o <= 0xff5e or o in (0xb2, 0xb3, 0xb9, 0x2075, 0x2082):
+            cls.add('ligature-fullwidth-superscript')
+        if o > 0xffff:
+            cls.add('astral')
+        if o in (0x200b, 0x200c, 0x200d, 0x200e, 0x2060, 0xfeff, 0xad, 0x34f, 0x202e, 0x202c, 0xfe0f):
+            cls.add('invisible')
+        if ch.isspace():
+            cls.add('inner-unicode-blank')
+    b = s.encode('utf-8')
+    if b'\x85' in b:
+        cls.add('utf8-byte-0x85')
+    if b'\xa0' in b:
+        cls.add('utf8-byte-0xa0')
+    return cls
+
+
+def gen_uni_word(r, spaced=False):
+    k = r.random()
+    a = r.choice(UNI_ATOMS)
+    if spaced and k < 0.08:
+        return r.choice(UNI_SPACED)
+    if k < 0.45:
+        return a
+    if k < 0.70:
+        return r.choice(UNI_STEMS) + a
+    if k < 0.85:
+        return a + r.choice(UNI_STEMS)
+    return r.choice(UNI_ATOMS) + a
+
+
+def gen_uni_content(r, lo=1, hi=5, spaced=True):
+    """Words of which at least one carries a non-normalised atom; no outer blanks."""
+    n = r.randint(lo, hi)
+    words = [gen_uni_word(r, spaced) if r.random() < 0.5 else r.choice(PLAIN_WORDS) for _ in range(n)]
+    words[r.randrange(n)] = gen_uni_word(r, spaced)
+    return ' '.join(words)
+
+
+def gen_uni_text_line(r):
+    """One line of free-form text in the domain, with non-normalised Unicode (or empty)."""
+    while True:
+        k = r.random()
+        if k < 0.14:
+            line = ''
+        elif k < 0.26:
+            line = ' ' * r.randint(1, 6) + gen_uni_content(r, 1, 4)
+        elif k < 0.34:
+            line = '\t' * r.randint(1, 2) + gen_uni_content(r, 1, 3)
+        elif k < 0.46:
+            line = gen_uni_content(r, 1, 4) + r.choice([' ', '  ', '\t', ' \t'])
+        elif k < 0.52:
+            line = r.choice(UNI_ATOMS)             # the atom alone: first and last character of the line
+        else:
+            line = gen_uni_content(r)
+        if line == '' or (line.strip() != '' and line != '.'):
+            return line
+
+
+def gen_uni_text(r, maxlines=6):
+    k = r.random()
+    if k < 0.08:
+        return ''
+    lines = [gen_uni_text_line(r) for _ in range(r.randint(1, maxlines))]
+    while lines and lines[-1].strip() == '':
+        lines.pop()
+    return '\n'.join(lines)
+
+
+def gen_uni_single(r):
+    while True:
+        s = gen_uni_content(r, 1, 3).strip()
+        if s and single_ok(s):
+            return s
+
+
+UNI_SYNOPSES = ['GPL-2+', 'MIT', 'Expat', '', 'X', 'Licence-Cafe\u0301', 'CC-BY-\uff13.\uff10',
+                '\u2126-License', 'A\u030a-1.0', '\u1112\u1161\u11ab-License', 'o\ufb03ce-EULA',
+                'GPL\u20112+', 'x\xb2', '\uf900']
+
+
+def gen_uni_license(r):
+    return [r.choice(UNI_SYNOPSES), gen_uni_text(r)]
+
+
+def gen_uni_codec_list(r):
+    n = r.choice([1, 2, 2, 3, 3, 4, 5, 6])
+    return [gen_uni_text_line(r) if r.random() < 0.7 else r.choice(CODEC_ALPHABET) for _ in range(n)]
+
+
+UNI_PATTERN_SHAPES = ['src/%s/*', '%s', '*.%s', 'doc/%s.txt', '%s/*', 'po/%s.po', '%s-*', '?%s', 'a/%s/b/*.c', '\\*%s']
+
+
+def gen_uni_pattern(r):
+    while True:
+        p = r.choice(UNI_PATTERN_SHAPES) % r.choice(UNI_ATOMS)
+        if pattern_ok(p):
+            return p
+
+
+def gen_uni_patterns(r):
+    n = r.choice([1, 1, 2, 3, 4])
+    ps = [gen_uni_pattern(r) if r.random() < 0.7 else r.choice(PATTERN_ATOMS) for _ in range(n)]
+    ps[r.randrange(n)] = gen_uni_pattern(r)
+    return ps
+
+
+def gen_uni_linelist(r):
+    n = r.choice([1, 1, 2, 3])
+    out = []
+    for _ in range(n):
+        k = r.random()
+        if k < 0.5:
+            out.append('%s <%s@example.org>' % (gen_uni_single(r), r.choice(['a', 'b-c'])))
+        elif k < 0.8:
+            out.append(gen_uni_single(r))
+        else:
+            out.append(gen_uni_pattern(r))
+    return out
+
+
+# what a continuation line of a raw multi-line value may start with: the structural blank, and everything else a
+# hand-written debian/copyright shows - one TAB, several blanks, blank+tab, tab+blank ...
+MARKERS = [' ', '\t', '  ', '   ', '    ', '        ', '\t\t', ' \t', '\t ', '  \t', ' \t ', '\t  ', ' \t\t', '\t \t',
+           '                ', ' \t  \t']
+ODD_MARKERS = MARKERS[1:]
+MARKER_TAILS = ['', '', '', '', ' ', '  ', '\t', ' \t', '\t ']
+
+
+def marker_classes(raw):
+    """Continuation-marker classes of one raw Deb822 value (empty set: single line, or only the plain one-blank
+    marker)."""
+    cls = set()
+    lines = raw.split('\n')
+    if len(lines) < 2:
+        return cls
+    for l in lines[1:]:
+        lead = l[:len(l) - len(l.lstrip(' \t'))]
+        body = l[len(lead):]
+        if lead == ' ':
+            continue
+        if lead == '\t':
+            cls.add('one-tab')
+        elif lead.strip('\t') == '':
+            cls.add('tabs>=2')
+        elif lead.strip(' ') == '':
+            cls.add('blanks>=2' if len(lead) < 4 else 'blanks>=4')
+        elif lead[0] == ' ' and lead[1:].strip('\t') == '' :
+            cls.add('blank+tab')
+        elif lead[0] == '\t' and lead[1:].strip(' ') == '':
+            cls.add('tab+blank')
+        else:
+            cls.add('mixed-blanks-and-tabs')
+        if body.rstrip(' \t') == '.':
+            cls.add('dot-after-odd-marker')
+    if cls:
+        if lines[0] == '':
+            cls.add('with-empty-first-line')
+        if any(l != l.rstrip(' \t') for l in lines[1:]):
+            cls.add('with-trailing-blank-or-tab')
+        if any('\t' in l.strip(' \t') for l in lines[1:]):
+            cls.add('with-inner-tab')
+        if lines[-1][0] != ' ' or lines[-1][:2] in ('  ', ' \t'):
+            cls.add('on-last-line')
+    return cls
+
+
+def gen_marker_raw(r, maxlines=4, uni=0.5, marker=None, atom=None, copyright_like=False):
+    """Raw Deb822 value (what .copyright / .comment / .disclaimer / .source take and return) whose continuation
+    lines start with odd markers - one TAB, several blanks, blank+tab, ...; written by the generator itself."""
+    def content():
+        if atom is not None and r.random() < 0.6:
+            return '%s %s' % (r.choice(PLAIN_WORDS), atom) if r.random() < 0.5 else atom
+        if r.random() < uni:
+            c = gen_uni_content(r, 1, 4)
+        else:
+            c = ' '.join(r.choice(PLAIN_WORDS) for _ in range(r.randint(1, 4)))
+        if copyright_like and r.random() < 0.5:
+            c = '%d%s %s' % (r.randint(1990, 2024), r.choice(['', '-2014', ', 2016']), c)
+        if r.random() < 0.15:
+            c = c.replace(' ', '\t', 1)           # a TAB inside the line
+        return c
+    first = '' if r.random() < 0.3 else content().strip()
+    if atom is not None and first and r.random() < 0.5:
+        first = atom
+    same = marker if marker is not None else (r.choice(ODD_MARKERS) if r.random() < 0.4 else None)
+    out = [first]
+    for _ in range(r.randint(1, maxlines)):
+        lead = same if same is not None and r.random() < 0.85 else r.choice(MARKERS if r.random() < 0.8 else ODD_MARKERS)
+        if r.random() < 0.1:
+            out.append(lead + '.')
+        else:
+            out.append(lead + content() + r.choice(MARKER_TAILS))
+    v = '\n'.join(out)
+    return v if raw_ok(v) else encode_raw(first, ['x'], None)
+
+
+def gen_unicode_doc(r):
+    """A document in the ordinary spec form whose text values carry non-normalised Unicode and whose raw values
+    carry odd continuation markers; fed to the parser in any of ALL_INPUTS, and (allforms) afterwards in all of
+    them."""
+    header = []
+    for a, p in (('upstream_name', 0.5), ('upstream_contact', 0.5), ('source', 0.3), ('disclaimer', 0.3),
+                 ('comment', 0.35), ('license', 0.25), ('copyright', 0.3), ('files_excluded', 0.2)):
+        if r.random() < p:
+            header.append([a, _gen_uni_value(r, HEADER_FIELDS[a][1], a)])
+    r.shuffle(header)
+    kinds = ['F'] * r.choice([0, 1, 1, 1, 2, 3]) + ['L'] * r.choice([0, 0, 1, 1, 2])
+    r.shuffle(kinds)
+    ops = []
+    for t in kinds:
+        if t == 'F':
+            op = {'t': 'F', 'files': gen_uni_patterns(r) if r.random() < 0.7 else gen_patterns(r),
+                  'copyright': gen_marker_raw(r, 3, copyright_like=True), 'license': gen_uni_license(r), 'then': []}
+            if r.random() < 0.15:
+                op['then'].append(['copyright', gen_marker_raw(r, 3, copyright_like=True)])
+        else:
+            op = {'t': 'L', 'license': gen_uni_license(r), 'then': []}
+        if r.random() < 0.3:
+            op['then'].append(['comment', gen_marker_raw(r, 3)])
+        op['pos'] = r.randrange(1000)
+        ops.append(op)
+    return {'kind': 'doc', 'input': r.choice(ALL_INPUTS if r.random() < 0.4 else MORE_INPUTS), 'header': header,
+            'ops': ops, 'early': int(r.random() < 0.5), 'nonstrict': int(r.random() < 0.5),
+            'second_round': int(r.random() < 0.5), 'allforms': 1}
+
+
+def _gen_uni_value(r, kind, attr=None):
+    if kind == 'single':
+        return gen_uni_single(r)
+    if kind == 'lines':
+        return gen_uni_linelist(r) if attr == 'upstream_contact' else gen_uni_patterns(r)
+    if kind == 'license':
+        return gen_uni_license(r)
+    return gen_marker_raw(r, 3, copyright_like=(attr == 'copyright'))
+
+
+# ---- documents given as RAW field text (parsed starting points / data objects), raw License text included
+
+RAWDOC_FIELDS = {
+    # paragraph kind -> Deb822 field name -> (property, kind of the typed value)
+    'H': {'Format': ('format', 'single'), 'Upstream-Name': ('upstream_name', 'single'),
+          'Upstream-Contact': ('upstream_contact', 'lines'), 'Source': ('source', 'raw'),
+          'Disclaimer': ('disclaimer', 'raw'), 'Comment': ('comment', 'raw'), 'License': ('license', 'license'),
+          'Copyright': ('copyright', 'raw'), 'Files-Excluded': ('files_excluded', 'lines'),
+          'Files-Included': ('files_included', 'lines')},
+    'F': {'Files': ('files', 'patterns'), 'Copyright': ('copyright', 'raw'), 'License': ('license', 'license'),
+          'Comment': ('comment', 'raw')},
+    'L': {'License': ('license', 'license'), 'Comment': ('comment', 'raw')},
+}
+RAWDOC_EXTRA_NAMES = ('X-Note', 'X-Origin')          # fields without a property: read through the mapping interface
+RAWDOC_VIAS = ('text', 'data')
+
+
+def model_license(raw):
+    """Independent model of the documented decoding of a License field value: first line = synopsis; every further
+    line must start with ONE blank, which is removed; a lone '.' then stands for an empty line.  None when a
+    continuation line starts with anything else (TAB ...): what the property returns then is not demanded."""
+    lines = raw.split('\n')
+    text = []
+    for l in lines[1:]:
+        if l[:1] != ' ':
+            return None
+        body = l[1:]
+        text.append('' if body == '.' else body)
+    return [lines[0], '\n'.join(text)]
+
+
+def model_lines(raw):
+    return [l.strip() for l in raw.strip().split('\n') if l.strip()]
+
+
+def write_rawdoc(paras):
+    """The generator's own writer: 'Name: first line' / 'Name:' for an empty first line, continuation lines verbatim,
+    one empty line between paragraphs."""
+    out = []
+    for k, para in enumerate(paras):
+        if k:
+            out.append('\n')
+        for name, raw in para['fields']:
+            out.append('%s:%s\n' % (name, raw) if raw == '' or raw[0] == '\n' else '%s: %s\n' % (name, raw))
+    return ''.join(out)
+
+
+def rawdoc_in_domain(case):
+    try:
+        if case.get('via') not in RAWDOC_VIAS or case.get('input') not in ALL_INPUTS or case.get('input2') not in ALL_INPUTS:
+            return False
+        paras = case['paras']
+        if not isinstance(paras, list) or not paras or paras[0].get('t') != 'H':
+            return False
+        seen_l = False
+        for k, para in enumerate(paras):
+            t = para.get('t')
+            if (k == 0) != (t == 'H') or t not in RAWDOC_FIELDS:
+                return False
+            names = [n for n, _v in para['fields']]
+            if len(set(n.lower() for n in names)) != len(names):
+                return False
+            have = dict(para['fields'])
+            for name, raw in para['fields']:
+                if name not in RAWDOC_FIELDS[t] and name not in RAWDOC_EXTRA_NAMES:
+                    return False
+                kind = RAWDOC_FIELDS[t].get(name, (None, 'raw'))[1]
+                if kind == 'single':
+                    if not single_ok(raw):
+                        return False
+                elif not raw_ok(raw) or raw == '':
+                    return False
+                if kind == 'patterns' and not (raw.split() and all(pattern_ok(x) for x in raw.split())):
+                    return False
+                if kind == 'lines' and not model_lines(raw):
+                    return False
+            if t == 'H' and have.get('Format') != CUR_FORMAT:
+                return False
+            if t == 'F' and not ('Files' in have and 'Copyright' in have and 'License' in have):
+                return False
+            if t == 'L' and 'License' not in have:
+                return False
+            if t == 'L':
+                seen_l = True
+            if t == 'F' and seen_l and case['via'] == 'data':
+                return False        # add_files_paragraph() moves it in front of the License paragraphs: not modelled
+        return True
+    except (KeyError, TypeError, AttributeError, ValueError, IndexError):
+        return False
+
+
+def gen_raw_license(r, marker=None, atom=None, decodable=None):
+    """Raw License field text: synopsis line, then continuation lines.  decodable: every continuation line starts
+    with the one structural blank (possibly followed by more blanks / tabs, which are then text)."""
+    syn = r.choice(UNI_SYNOPSES if r.random() < 0.4 else SYNOPSES)
+    if decodable is None:
+        decodable = r.random() < 0.5
+    out = [syn]
+    for _ in range(r.randint(1, 4)):
+        if marker is not None and r.random() < 0.8:
+            lead = marker
+        elif decodable:
+            lead = ' ' + r.choice(['', '', '', ' ', '  ', '\t', '   \t'])
+        else:
+            lead = r.choice(MARKERS)
+        k = r.random()
+        if k < 0.15:
+            body = '.'
+        elif atom is not None and k < 0.6:
+            body = atom
+        elif k < 0.7:
+            body = gen_uni_content(r, 1, 4)
+        else:
+            body = ' '.join(r.choice(PLAIN_WORDS) for _ in range(r.randint(1, 4)))
+        out.append(lead + body + r.choice(MARKER_TAILS))
+    v = '\n'.join(out)
+    return v if raw_ok(v) and v != '' else 'X\n x'
+
+
+def gen_rawdoc(r, via=None, form=None, marker=None, atom=None):
+    def raw(name, copyright_like=False):
+        return gen_marker_raw(r, 3, marker=marker, atom=atom, copyright_like=copyright_like,
+                              uni=0.5 if marker is None else 0.2)
+
+    def files():
+        ps = gen_uni_patterns(r) if (atom is None and r.random() < 0.5) else [r.choice(PATTERN_ATOMS) for _ in range(r.randint(1, 3))]
+        if atom is not None and pattern_ok('src/%s/*' % atom):
+            ps.append('src/%s/*' % atom)
+        if len(ps) > 1 and r.random() < 0.4:          # the list continued on further lines
+            lead = marker if marker is not None else r.choice(MARKERS)
+            k = r.randint(1, len(ps) - 1)
+            return ' '.join(ps[:k]) + '\n' + lead + ' '.join(ps[k:])
+        return ' '.join(ps)
+
+    def single():
+        return atom if atom is not None and single_ok(atom) and r.random() < 0.6 else gen_uni_single(r)
+
+    hfields = [['Format', CUR_FORMAT]]
+    for name, p in (('Upstream-Name', 0.5), ('Upstream-Contact', 0.4), ('Source', 0.3), ('Disclaimer', 0.5),
+                    ('Comment', 0.5), ('License', 0.3), ('Copyright', 0.4), ('X-Note', 0.2)):
+        if r.random() < p:
+            if name == 'Upstream-Name':
+                v = single()
+            elif name == 'Upstream-Contact':
+                es = gen_uni_linelist(r)
+                v = es[0] if len(es) == 1 else '\n' + '\n'.join((marker or r.choice(MARKERS)) + e for e in es)
+            elif name == 'License':
+                v = gen_raw_license(r, marker, atom)
+            else:
+                v = raw(name, name == 'Copyright')
+            hfields.insert(r.randint(0, len(hfields)), [name, v])
+    paras = [{'t': 'H', 'fields': hfields}]
+    kinds = ['F'] * r.choice([0, 1, 1, 2]) + ['L'] * r.choice([0, 1, 1, 2])
+    if via == 'text' or (via is None and r.random() < 0.5):
+        r.shuffle(kinds)
+    for t in kinds:
+        if t == 'F':
+            fields = [['Files', files()], ['Copyright', raw('Copyright', True)], ['License', gen_raw_license(r, marker, atom)]]
+        else:
+            fields = [['License', gen_raw_license(r, marker, atom)]]
+        if r.random() < 0.4:
+            fields.append(['Comment', raw('Comment')])
+        if r.random() < 0.15:
+            fields.append(['X-Origin', raw('X-Origin')])
+        if r.random() < 0.3:
+            r.shuffle(fields)
+        paras.append({'t': t, 'fields': fields})
+    if via is None:
+        via = 'data' if all(paras[i]['t'] != 'L' or paras[j]['t'] != 'F' for i in range(len(paras))
+                            for j in range(i + 1, len(paras))) and r.random() < 0.5 else 'text'
+    form = form or r.choice(ALL_INPUTS)
+    return {'kind': 'rawdoc', 'via': via, 'input': form, 'input2': r.choice(ALL_INPUTS), 'paras': paras}
+
+
+def enum_rawdocs():
+    """The fixed grid: every non-normalised atom x (a third of) the input forms, every continuation marker x every
+    input form - each as a small document given as raw field text, alternately parsed from the written text and
+    assembled over data objects."""
+    import random
+    n = 0
+    for i, atom in enumerate(UNI_ATOMS + UNI_SPACED):
+        for j, form in enumerate(ALL_INPUTS):
+            if (i + j) % 3:
+                continue
+            n += 1
+            case = gen_rawdoc(random.Random('raw-enum/a/%d/%d' % (i, j)), via=RAWDOC_VIAS[n % 2], form=form, atom=atom)
+            case['enumerated'] = 'atom'
+            yield case
+    for i, marker in enumerate(ODD_MARKERS):
+        for j, form in enumerate(ALL_INPUTS):
+            n += 1
+            case = gen_rawdoc(random.Random('raw-enum/m/%d/%d' % (i, j)), via=RAWDOC_VIAS[n % 2], form=form, marker=marker)
+            case['enumerated'] = 'marker'
+            yield case
+
+
+# ---------------------------------------------------------------------------
 # feature accounting / non-triviality
 
 def _text_features(lines, feats):
@@ -1724,7 +2261,7 @@ def _indent_class(lead):
     return 'mixed'
 
 
-def doc_features(final):
+def doc_features(final, uni=False):
     """final = {'header': {attr: value}, 'paras': [(t, {attr: value}), ...]}"""
     feats = set()
     nontrivial_text = False
@@ -1733,6 +2270,13 @@ def doc_features(final):
         nonlocal nontrivial_text
         if val is None:
             return
+        for s_ in (() if not uni else [val] if isinstance(val, str) else val):
+            if not s_.isascii():
+                for cl in uni_classes(s_):
+                    feats.add('uni-' + cl)
+        if kind == 'raw' and uni:
+            for cl in marker_classes(val):
+                feats.add('marker-' + cl)
         if kind == 'license':
             lines = [val[0]] + (val[1].split('\n') if val[1] != '' else [])
             if _text_features(lines, feats):
@@ -1871,9 +2415,55 @@ def _field_key(t, attr, kind, expected, got, copyright, where):
     return '%s-%s-differs' % (where, attr)
 
 
+_SCRATCH = {'dir': None, 'n': 0, 'open': []}
+
+
+def _scratch_path():
+    """A fresh path in this process's scratch directory (memory-backed where the box has /dev/shm); the directory is
+    removed when the interpreter exits."""
+    import atexit
+    import os
+    import shutil
+    import tempfile
+    if _SCRATCH['dir'] is None or not os.path.isdir(_SCRATCH['dir']):
+        base = '/dev/shm' if os.path.isdir('/dev/shm') and os.access('/dev/shm', os.W_OK) else None
+        d = tempfile.mkdtemp(prefix='vp-c17-', dir=base)
+        _SCRATCH['dir'] = d
+        atexit.register(shutil.rmtree, d, True)
+    _SCRATCH['n'] += 1
+    return os.path.join(_SCRATCH['dir'], 'doc%d' % (_SCRATCH['n'] % 8))
+
+
+def _close_scratch():
+    for f in _SCRATCH['open']:
+        try:
+            f.close()
+        except Exception:
+            pass
+    del _SCRATCH['open'][:]
+
+
 def _feed(text, mode):
+    """`text` in one of the ALL_INPUTS forms.  The constructors consume their input completely, so a file object
+    handed out by the previous call is closed here."""
+    if _SCRATCH['open']:
+        _close_scratch()
     if mode == 'stringio':
         return io.StringIO(text)
+    if mode == 'str-doc':
+        return text
+    if mode == 'bytes-doc':
+        return text.encode('utf-8')
+    if mode == 'bytesio':
+        return io.BytesIO(text.encode('utf-8'))
+    if mode in ('binary-file', 'text-file'):
+        path = _scratch_path()
+        with open(path, 'wb') as f:
+            f.write(text.encode('utf-8'))
+        # the encoding is always named: what the locale of the process would pick is not the subject here
+        f = open(path, 'rb') if mode == 'binary-file' else open(path, 'r', encoding='utf-8')
+        _SCRATCH['open'].append(f)
+        return f
     pieces = text.split('\n')
     if pieces and pieces[-1] == '':
         pieces.pop()
@@ -1882,6 +2472,8 @@ def _feed(text, mode):
         ends = ['\n'] * (len(pieces) - 1) + ['']
     if mode == 'noends':
         return list(pieces)
+    if mode == 'bytes-noends':
+        return [p.encode('utf-8') for p in pieces]
     lines = [p + e for p, e in zip(pieces, ends)]
     if mode == 'bytes':
         return [l.encode('utf-8') for l in lines]
@@ -1968,6 +2560,8 @@ def check_doc(case, stats=None):
     except MonitorViolation as e:
         contracts.PENDING[:] = []
         return [(e.key, e.msg)]
+    finally:
+        _close_scratch()
 
 
 def format_values(case):
@@ -2290,7 +2884,7 @@ def _verify(case, st, copyright, out, stats, perm=True):
 
     # ---- second round: the dump of the re-parsed document parses to the same values and dumps to itself
     if case.get('second_round'):
-        mode_2 = INPUTS[(INPUTS.index(case['input']) + 3) % len(INPUTS)]
+        mode_2 = _rot(case['input'], 3)
         try:
             c6 = copyright.Copyright(_feed(text2, mode_2), strict=True)
             seq6 = list(c6.all_paragraphs())
@@ -2317,7 +2911,7 @@ def _verify(case, st, copyright, out, stats, perm=True):
 
     # ---- non-strict re-parse of the same (valid) text: same paragraphs, same typed values, same re-dump
     if case.get('nonstrict'):
-        mode_n = INPUTS[(INPUTS.index(case['input']) + 2) % len(INPUTS)]
+        mode_n = _rot(case['input'], 2)
         try:
             c5 = copyright.Copyright(_feed(text, mode_n), strict=False)
             seq5 = list(c5.all_paragraphs())
@@ -2342,6 +2936,43 @@ def _verify(case, st, copyright, out, stats, perm=True):
             stats['nonstrict_values'] = n5
         if out:
             return
+
+    # ---- OTHER input forms (four of the nine others, by rotation from the case's own form; over the documents of a
+    # run every form is used): the same dump as one str / one utf-8 bytes object / byte lines / streams / real files
+    if case.get('allforms'):
+        nforms = nvals = 0
+        at = ALL_INPUTS.index(case['input'])
+        for mode_a in [ALL_INPUTS[(at + k) % len(ALL_INPUTS)] for k in ALLFORMS_OFFSETS]:
+            before = len(out)
+            try:
+                c9 = copyright.Copyright(_feed(text, mode_a), strict=True)
+                seq9 = list(c9.all_paragraphs())
+            except Exception as e:
+                out.append(('strict-reparse-raises/%s' % type(e).__name__,
+                            'dump %r (parses back when fed as %s) does not parse back when fed as %s: %r'
+                            % (text, case['input'], mode_a, e)))
+                return
+            kinds9 = [_kind_of(p, copyright) for p in seq9]
+            if kinds9 != kinds1:
+                key = 'reparsed-paragraph-count-differs' if len(kinds9) != len(kinds1) else 'reparsed-paragraph-kind-differs'
+                out.append((key, 'built %r, re-parsed (fed as %s) %r; dump=%r' % (kinds1, mode_a, kinds9, text)))
+                return
+            nvals += compare(seq9, 'reparsed')
+            try:
+                text9 = c9.dump()
+            except Exception as e:
+                out.append(('redump-raises/%s' % type(e).__name__, 'dump() of the document re-parsed from %s raised %r' % (mode_a, e)))
+                return
+            if text9 != text_fixed:
+                out.append(('redump-differs', 'dump %r, dump of the document re-parsed from it %r' % (text, text9)))
+            if len(out) != before:
+                out[before:] = [(k, m + ' [the dump fed as %s; fed as %s there was no difference]' % (mode_a, case['input']))
+                                for k, m in out[before:]]
+                return
+            nforms += 1
+        if stats is not None:
+            stats['allforms'] = nforms
+            stats['allforms_values'] = nvals
 
     # ---- PARSED starting points: the same text with another Format value in the header
     if case.get('fmt_parsed'):
@@ -2378,7 +3009,7 @@ def _check_parsed_formats(case, st, text, fmt_shown, expected, compare, copyrigh
         exp_p = [('H', dict(st.hcur, format=fixed))] + list(expected[1:])
         what = 'parsed-%s' % style
         strict = (k + len(case['fmt_parsed'])) % 2 == 0
-        mode = INPUTS[(INPUTS.index(case['input']) + 1 + k) % len(INPUTS)]
+        mode = _rot(case['input'], 1 + k)
 
         def parse(t, m, strict, what):
             try:
@@ -2414,7 +3045,7 @@ def _check_parsed_formats(case, st, text, fmt_shown, expected, compare, copyrigh
         if len(out) != before:
             return
         # one more cycle from what the first dump shows: same values, same text
-        c8, objs8 = parse(text7, INPUTS[(INPUTS.index(mode) + 2) % len(INPUTS)], True, what + '-second-cycle')
+        c8, objs8 = parse(text7, _rot(mode, 2), True, what + '-second-cycle')
         if c8 is None:
             return
         values += compare(objs8, what + '-second-cycle', exp_p)
@@ -2495,7 +3126,7 @@ def _check_permuted(case, text, order, final, compare, copyright, out, stats):
         stats['perm'] = 'run'
         stats['perm_classes'] = perm_classes(kinds_p[1:], order, order2)
     mode = case['input']
-    mode_b = INPUTS[(INPUTS.index(mode) + 1) % len(INPUTS)]
+    mode_b = _rot(mode, 1)
 
     def parse(t, m, what):
         try:
@@ -2600,7 +3231,7 @@ def _candidates(case):
         c = copy.deepcopy(case)
         del c['late'][i]
         yield c
-    for flag in ('late_after_dump', 'hdr', 'early', 'nonstrict', 'second_round'):
+    for flag in ('late_after_dump', 'hdr', 'early', 'nonstrict', 'second_round', 'allforms'):
         if case.get(flag):
             c = copy.deepcopy(case)
             del c[flag]
@@ -2776,6 +3407,8 @@ def check_lists(case, stats=None):
     except MonitorViolation as e:
         contracts.PENDING[:] = []
         return [(e.key, e.msg, None)]
+    finally:
+        _close_scratch()
 
 
 def _check_lists(case, stats):
@@ -2784,6 +3417,7 @@ def _check_lists(case, stats):
     lists = case['lists']
     fname = field.replace('_', '-')
     is_files = field == 'files'
+    forms = ALL_INPUTS if case.get('wide') else INPUTS
     out = []
     n = {'fresh': 0, 'reassigned': 0, 'reparsed': 0, 'kept': 0, 'doc': 0}
 
@@ -2830,7 +3464,7 @@ def _check_lists(case, stats):
         # the paragraph's own dump, parsed back into a paragraph object of the same class
         try:
             text = o.dump()
-            para = deb822.Deb822(_feed(text, INPUTS[i % len(INPUTS)]))
+            para = deb822.Deb822(_feed(text, forms[i % len(forms)]))
             if is_files:
                 o2 = copyright.FilesParagraph(para) if i % 3 else copyright.FilesParagraph(para, strict=False)
             else:
@@ -2869,7 +3503,7 @@ def _check_lists(case, stats):
                 want = [(kept[-1][0], kept[-1][1])]
             text = c.dump()
             for strict in (True, False):
-                c2 = copyright.Copyright(_feed(text, INPUTS[(len(lists) + strict) % len(INPUTS)]), strict=strict)
+                c2 = copyright.Copyright(_feed(text, forms[(len(lists) + strict + (3 if case.get('wide') else 0)) % len(forms)]), strict=strict)
                 objs = list(c2.all_files_paragraphs()) if is_files else [c2.header]
                 where = 'reparsed' if strict else 'nonstrict-reparsed'
                 if len(objs) != len(want):
@@ -2899,6 +3533,8 @@ def shrink_lists(case, key, index):
         except Exception:
             return False
     base = {'kind': 'lists', 'field': case['field']}
+    if case.get('wide'):
+        base['wide'] = 1
     if index is not None:
         single = dict(base, lists=[case['lists'][index]])
         if shows(single):
@@ -3026,6 +3662,273 @@ def check_license(ctx, lic):
         elif s3 != s:
             ctx.violation('license-encoded-string-not-a-fixpoint',
                           'License%r encodes to %r; second from_str/to_str cycle gives %r' % (tuple(lic), s, s3), small)
+
+
+# ---------------------------------------------------------------------------
+# documents given as RAW field text: what the parser / the data objects hand back, dump, strict re-parse, re-dump
+
+def _license_outcome(p):
+    """What reading .license gives: ('value', synopsis, text) or ('raises', exception type name)."""
+    try:
+        got = p.license
+    except Exception as e:
+        return ('raises', type(e).__name__)
+    if got is None:
+        return ('none',)
+    try:
+        return ('value', got.synopsis, got.text)
+    except Exception:
+        return ('other', repr(got))
+
+
+def _raw_observe(p, para, where, label, copyright, out, outcomes):
+    """Every field of one paragraph object against the raw text that was written: the raw value through the mapping
+    interface, the typed value through the property (per the module's own models), absent properties read as absent.
+    Returns the number of values compared."""
+    t = para['t']
+    table = RAWDOC_FIELDS[t]
+    n = 0
+    have = set()
+    for name, raw in para['fields']:
+        low = name.lower()
+        if name in table:
+            have.add(table[name][0])
+        try:
+            got = p[name]
+        except Exception as e:
+            out.append(('raw:%s-field-unreadable/%s' % (where, type(e).__name__),
+                        'paragraph %s (%s): reading [%r] raised %r; written %r' % (label, t, name, e, raw)))
+            continue
+        n += 1
+        if not (isinstance(got, str) and got == raw):
+            out.append(('raw:%s-%s-differs' % (where, low),
+                        'paragraph %s (%s) [%r]: written %r, %s document has %r' % (label, t, name, raw, where, got)))
+            continue
+        if name not in table:
+            continue
+        attr, kind = table[name]
+        if kind == 'license':
+            outcome = _license_outcome(p)
+            exp = model_license(raw)
+            if exp is None:
+                outcomes.append((label, name, outcome))       # not demanded; must be the same before and after
+                continue
+            n += 1
+            if outcome != ('value', exp[0], exp[1]):
+                out.append(('raw:%s-typed-license-differs' % where,
+                            'paragraph %s (%s) .license: raw text %r decodes (one structural blank per continuation '
+                            'line) to %r, %s document gives %r' % (label, t, raw, exp, where, outcome)))
+            continue
+        try:
+            typed = getattr(p, attr)
+        except Exception as e:
+            out.append(('raw:%s-getter-raises/%s' % (where, type(e).__name__),
+                        'paragraph %s (%s) .%s raised %r; raw text %r' % (label, t, attr, e, raw)))
+            continue
+        n += 1
+        if kind == 'patterns':
+            ok = not isinstance(typed, str) and typed is not None and list(typed) == raw.split()
+        elif kind == 'lines':
+            ok = not isinstance(typed, str) and typed is not None and list(typed) == model_lines(raw)
+        else:
+            ok = isinstance(typed, str) and typed == raw
+        if not ok:
+            out.append(('raw:%s-typed-%s-differs' % (where, low),
+                        'paragraph %s (%s) .%s: raw text %r, %s document gives %r' % (label, t, attr, raw, where, typed)))
+    for name, (attr, kind) in table.items():
+        if attr in have:
+            continue
+        try:
+            typed = getattr(p, attr)
+        except Exception as e:
+            out.append(('raw:%s-getter-raises/%s' % (where, type(e).__name__),
+                        'paragraph %s (%s) .%s (field not written) raised %r' % (label, t, attr, e)))
+            continue
+        n += 1
+        if not _same('lines' if kind in ('lines', 'patterns') else 'raw', None, typed, copyright):
+            out.append(('raw:%s-absent-%s-reads-as-present' % (where, name.lower()),
+                        'paragraph %s (%s) .%s: field not written, %s document gives %r' % (label, t, attr, where, typed)))
+    return n
+
+
+def check_rawdoc(case, stats=None):
+    """Returns a list of (key, message)."""
+    from .. import contracts
+    from ..core import MonitorViolation
+    try:
+        return _check_rawdoc(case, stats)
+    except MonitorViolation as e:
+        contracts.PENDING[:] = []
+        return [(e.key, e.msg)]
+    finally:
+        _close_scratch()
+
+
+def _check_rawdoc(case, stats):
+    from debian import copyright, deb822
+    out = []
+    paras = case['paras']
+    kinds1 = [para['t'] for para in paras]
+    text0 = write_rawdoc(paras)
+    values = 0
+
+    def observe(c, where, outcomes):
+        n = 0
+        try:
+            objs = list(c.all_paragraphs())
+        except Exception as e:
+            out.append(('raw:%s-all-paragraphs-raises/%s' % (where, type(e).__name__), repr(e)))
+            return None
+        kinds = [_kind_of(p, copyright) for p in objs]
+        if kinds != kinds1:
+            key = 'raw:%s-paragraph-count-differs' if len(kinds) != len(kinds1) else 'raw:%s-paragraph-kind-differs'
+            out.append((key % where, 'written %r, %s document reports %r; text=%r' % (kinds1, where, kinds, text0)))
+            return None
+        for k, (p, para) in enumerate(zip(objs, paras)):
+            n += _raw_observe(p, para, where, '#%d' % k, copyright, out, outcomes)
+        return n
+
+    # ---- the starting point: parsed from the text the generator wrote / assembled over data objects
+    if case['via'] == 'text':
+        where0 = 'parsed'
+        try:
+            c = copyright.Copyright(_feed(text0, case['input']), strict=True)
+        except Exception as e:
+            out.append(('raw:strict-parse-raises/%s' % type(e).__name__,
+                        'text %r (fed as %s) does not parse: %r' % (text0, case['input'], e)))
+            return out
+    else:
+        where0 = 'built'
+        try:
+            c = copyright.Copyright()
+            for para in paras:
+                data = deb822.Deb822()
+                for name, raw in para['fields']:
+                    data[name] = raw
+                if para['t'] == 'H':
+                    c.header = copyright.Header(data)
+                elif para['t'] == 'F':
+                    c.add_files_paragraph(copyright.FilesParagraph(data))
+                else:
+                    c.add_license_paragraph(copyright.LicenseParagraph(data))
+        except Exception as e:
+            out.append(('raw:build-rejects-valid-value/%s' % type(e).__name__,
+                        'assembling the document over data objects raised %r' % (e,)))
+            return out
+    outcomes0 = []
+    n = observe(c, where0, outcomes0)
+    if n is None or out:
+        return [(k, m + ' [starting point: %s%s]' % (case['via'], ', fed as ' + case['input'] if case['via'] == 'text' else ''))
+                for k, m in out]
+    values += n
+
+    # ---- dump; the dump parses back (strict) to what was written; its dump is the same text
+    try:
+        text1 = c.dump()
+    except Exception as e:
+        out.append(('raw:dump-raises/%s' % type(e).__name__, 'dump() raised %r' % (e,)))
+        return out
+    if not isinstance(text1, str):
+        out.append(('raw:dump-not-text', 'dump() returned %r' % (type(text1),)))
+        return out
+    if stats is not None:
+        stats['dump_equals_written_text'] = int(text1 == text0)
+    cur = text1
+    for rnd, mode in enumerate((case['input2'], _rot(case['input2'], 5))):
+        where = 'reparsed' if rnd == 0 else 'second-round-reparsed'
+        try:
+            c2 = copyright.Copyright(_feed(cur, mode), strict=True)
+        except Exception as e:
+            out.append(('raw:%s-strict-parse-raises/%s' % (where, type(e).__name__),
+                        'dump %r (fed as %s) does not parse back: %r' % (cur, mode, e)))
+            return out
+        outcomes2 = []
+        n = observe(c2, where, outcomes2)
+        if n is None or out:
+            return [(k, m + ' [dump %r fed as %s]' % (cur, mode)) for k, m in out]
+        values += n
+        if outcomes2 != outcomes0:
+            out.append(('raw:license-getter-outcome-changes-over-dump-and-reparse',
+                        'before %r, after dump + strict re-parse %r; dump=%r' % (outcomes0, outcomes2, cur)))
+            return out
+        try:
+            text2 = c2.dump()
+        except Exception as e:
+            out.append(('raw:redump-raises/%s' % type(e).__name__, 'dump() of the re-parsed document raised %r' % (e,)))
+            return out
+        if text2 != cur:
+            out.append(('raw:redump-differs' if rnd == 0 else 'raw:second-round-redump-differs',
+                        'dump %r (fed as %s), dump of the re-parsed document %r' % (cur, mode, text2)))
+            return out
+        cur = text2
+    if stats is not None:
+        stats['values'] = values
+        stats['undecodable_license_outcomes'] = [o[2][0] for o in outcomes0]
+    return out
+
+
+def _rawdoc_candidates(case):
+    import copy
+    paras = case['paras']
+    for i in range(1, len(paras)):
+        c = copy.deepcopy(case)
+        del c['paras'][i]
+        yield c
+    for i, para in enumerate(paras):
+        for j in range(len(para['fields'])):
+            c = copy.deepcopy(case)
+            del c['paras'][i]['fields'][j]
+            yield c
+    for i, para in enumerate(paras):
+        for j, (name, raw) in enumerate(para['fields']):
+            lines = raw.split('\n')
+            for k in range(1, len(lines)):
+                c = copy.deepcopy(case)
+                c['paras'][i]['fields'][j][1] = '\n'.join(lines[:k] + lines[k + 1:])
+                yield c
+    for key in ('input', 'input2'):
+        if case[key] != 'keepends':
+            c = copy.deepcopy(case)
+            c[key] = 'keepends'
+            yield c
+
+
+def shrink_rawdoc(case, key, budget=300):
+    cur = case
+    progress = True
+    while progress and budget > 0:
+        progress = False
+        for cand in _rawdoc_candidates(cur):
+            budget -= 1
+            if budget <= 0:
+                break
+            if not rawdoc_in_domain(cand):
+                continue
+            try:
+                found = check_rawdoc(cand)
+            except Exception:
+                continue
+            if any(k == key for k, _ in found):
+                cur = cand
+                progress = True
+                break
+    return cur
+
+
+def rawdoc_features(case):
+    feats = set()
+    for para in case['paras']:
+        for name, raw in para['fields']:
+            for cl in uni_classes(raw):
+                feats.add('uni-' + cl)
+            mc = marker_classes(raw)
+            for cl in mc:
+                feats.add('marker-' + cl)
+            if mc:
+                feats.add('marker-in-%s' % name.lower())
+            if name == 'License' and '\n' in raw:
+                feats.add('license-raw-decodable' if model_license(raw) is not None else 'license-raw-tab-or-other-marker')
+    return feats
 
 
 # ---------------------------------------------------------------------------
@@ -3200,6 +4103,19 @@ def cases(ctx):
     n = ctx.size(HEADERDOCS['quick'], HEADERDOCS['thorough'])
     for i in range(n):
         yield gen_header_doc(ctx.rng('hdoc', i))
+    # 1f. documents whose text values carry non-normalised Unicode and whose raw values carry odd continuation markers
+    #     (built through the API; the dump is fed back in ALL input forms)
+    n = ctx.size(UNIDOCS['quick'], UNIDOCS['thorough'])
+    for i in range(n):
+        yield gen_unicode_doc(ctx.rng('udoc', i))
+    # 1g. documents given as RAW field text (parsed from the generator's own text / assembled over data objects), raw
+    #     License text included: the fixed grid atom x form, marker x form (sharded), then seeded ones
+    for i, case in enumerate(enum_rawdocs()):
+        if ctx.mine(i):
+            yield case
+    n = ctx.size(RAWDOCS['quick'], RAWDOCS['thorough'])
+    for i in range(n):
+        yield gen_rawdoc(ctx.rng('rawdoc', i))
     # 1c. several documents in one case
     n = ctx.size(MULTI['quick'], MULTI['thorough'])
     for i in range(n):
@@ -3221,6 +4137,12 @@ def cases(ctx):
         r = ctx.rng('lists', b)
         field = LIST_FIELD_CYCLE[(b // LIST_BATCH) % len(LIST_FIELD_CYCLE)]
         yield {'kind': 'lists', 'field': field, 'lists': gen_list_batch(r, field, min(LIST_BATCH, n - b))}
+    n = ctx.size(ULISTS['quick'], ULISTS['thorough'])
+    for b in range(0, n, LIST_BATCH):
+        r = ctx.rng('ulists', b)
+        field = LIST_FIELD_CYCLE[(b // LIST_BATCH) % len(LIST_FIELD_CYCLE)]
+        gen = gen_uni_patterns if field in ('files', 'files_excluded', 'files_included') else gen_uni_linelist
+        yield {'kind': 'lists', 'field': field, 'lists': [gen(r) for _ in range(min(LIST_BATCH, n - b))], 'wide': 1}
     # 2. codec: complete small sub-space, sharded
     batch = []
     for i, lines in enumerate(enum_codec_lists()):
@@ -3236,6 +4158,14 @@ def cases(ctx):
     for b in range(0, n, CODEC_BATCH):
         r = ctx.rng('codec', b)
         yield {'kind': 'codec', 'lists': [gen_codec_list(r) for _ in range(min(CODEC_BATCH, n - b))]}
+    n = ctx.size(UCODEC['quick'], UCODEC['thorough'])
+    for b in range(0, n, CODEC_BATCH):
+        r = ctx.rng('ucodec', b)
+        yield {'kind': 'codec', 'lists': [gen_uni_codec_list(r) for _ in range(min(CODEC_BATCH, n - b))], 'uni': 1}
+    n = ctx.size(ULICENSES['quick'], ULICENSES['thorough'])
+    for b in range(0, n, LICENSE_BATCH):
+        r = ctx.rng('ulicense', b)
+        yield {'kind': 'license', 'licenses': [gen_uni_license(r) for _ in range(min(LICENSE_BATCH, n - b))], 'uni': 1}
     # 4. License objects
     n = ctx.size(LICENSES['quick'], LICENSES['thorough'])
     for b in range(0, n, LICENSE_BATCH):
@@ -3375,6 +4305,14 @@ def run_lists(ctx, case):
     ctx.count('lists:%s' % field, len(lists))
     if case.get('enumerated'):
         ctx.count('lists:enumerated', len(lists))
+    if case.get('wide'):
+        ctx.count('lists:unicode:%s' % field, len(lists))
+        for L in lists:
+            ucl = uni_classes('\n'.join(L))
+            for cl in ucl:
+                ctx.count('lists:uni-%s' % cl)
+            if ucl:
+                ctx.nontrivial(case={'lists': [field, L]})
     for L in lists:
         cls = list_punct_classes(L)
         for cl in cls:
@@ -3400,6 +4338,51 @@ def run_lists(ctx, case):
             cands = [small] + ([case] if small is not case else [])
             cands.append(dict(case, lists=case['lists'] + case['lists']))
             key, msg, small = confirm(ctx, key, msg, cands)
+        ctx.violation(key, msg, small)
+
+
+def run_rawdoc(ctx, case):
+    if not rawdoc_in_domain(case):
+        ctx.count('raw:outside-domain')      # e.g. a hand-edited replay file: nothing is demanded
+        return
+    stats = {}
+    found = check_rawdoc(case, stats)
+    ctx.mon('M.raw')
+    ctx.mon('M.raw-value', stats.get('values', 0))
+    ctx.count('raw:via:%s' % case['via'])
+    if case['via'] == 'text':
+        ctx.count('raw:parsed-from:%s' % case['input'])
+    ctx.count('raw:dump-reparsed-from:%s' % case['input2'])
+    if case.get('enumerated'):
+        ctx.count('raw:enumerated')
+        ctx.count('raw:enumerated:%s' % case['enumerated'])
+    feats = rawdoc_features(case)
+    for f in feats:
+        ctx.count('raw:%s' % f)
+    if 'dump_equals_written_text' in stats and case['via'] == 'text':
+        ctx.count('raw:dump-equals-the-parsed-text' if stats['dump_equals_written_text']
+                  else 'raw:dump-differs-from-the-parsed-text(not-judged)')
+    for o in stats.get('undecodable_license_outcomes', []):
+        ctx.count('raw:recorded:license-getter-on-tab-marked-text:%s' % o)
+    if feats:
+        ctx.nontrivial()
+    seen = set()
+    for key, msg in found:
+        if key in seen:
+            continue
+        seen.add(key)
+        small = case
+        if ctx.viol_count[key] < 3 and not ctx.replay:
+            try:
+                small = shrink_rawdoc(case, key)
+            except Exception:
+                small = case
+            if small is not case:
+                again = [m for k, m in check_rawdoc(small) if k == key]
+                if again:
+                    msg = again[0]
+                else:
+                    small = case
         ctx.violation(key, msg, small)
 
 
@@ -3460,17 +4443,26 @@ def run_case(ctx, case):
             ctx.count('codec:enumerated', len(lists))
         for lines in lists:
             check_codec_list(ctx, lines, enumerated)
+            if case.get('uni') and codec_domain(lines):
+                for cl in uni_classes('\n'.join(lines)):
+                    ctx.count('codec:uni-%s' % cl)
         return
     if kind == 'license':
         ctx.evaluations += max(0, len(case['licenses']) - 1)
         for lic in case['licenses']:
             check_license(ctx, lic)
+            if case.get('uni') and license_ok(lic):
+                for cl in uni_classes(lic[0] + '\n' + lic[1]):
+                    ctx.count('lic:uni-%s' % cl)
         return
     if kind == 'lists':
         run_lists(ctx, case)
         return
     if kind == 'multi':
         run_multi(ctx, case)
+        return
+    if kind == 'rawdoc':
+        run_rawdoc(ctx, case)
         return
     if kind != 'doc':
         ctx.count('unknown-case-kind')
@@ -3485,7 +4477,7 @@ def run_case(ctx, case):
     ctx.mon('M.value', stats.get('values', 0))
     ctx.count('input:%s' % case['input'])
     final = final_values(case)
-    feats, nontrivial = doc_features(final)
+    feats, nontrivial = doc_features(final, uni=bool(case.get('allforms')))
     for f in feats:
         ctx.count('feat:%s' % f)
     if any(v is None for _a, v in case.get('header', [])) or \
@@ -3499,6 +4491,14 @@ def run_case(ctx, case):
     ctx.count('paras:%d' % len(real_ops(case)))
     _count_formats(ctx, case, stats)
     _count_factory(ctx, case, stats)
+    if stats.get('allforms'):
+        ctx.mon('M.allforms', stats['allforms'])
+        ctx.mon('M.allforms-value', stats.get('allforms_values', 0))
+        ctx.count('uni:documents')
+        ctx.count('uni:first-input:%s' % case['input'])
+        for f in feats:
+            if f.startswith('uni-') or f.startswith('marker-'):
+                ctx.count('uni:doc-with-%s' % f)
     perm = stats.get('perm')
     if perm is not None:
         ctx.count('perm:%s' % perm)
